@@ -411,9 +411,9 @@ func runArgparse(t *Tree, sc *Scenario, argv []S) (obs *Obs) {
 		b.log.evs = nil
 		b.AttachLate()
 		if sc.RenameOpt > 0 && sc.RenameOpt <= len(b.opts) {
-			want := b.opts[sc.RenameOpt-1].field
+			want := nodeKey(b.opts[sc.RenameOpt-1])
 			eachOption(p.Command, func(o *flags.Option) {
-				if o.Field().Name == want {
+				if optKey(o) == want {
 					o.LongName = sc.RenameLong.String()
 				}
 			})
@@ -534,7 +534,7 @@ func (b *Built) fillState(obs *Obs) {
 	var walkG func(g *flags.Group)
 	walkG = func(g *flags.Group) {
 		for _, o := range g.Options() {
-			byField[o.Field().Name] = o
+			byField[optKey(o)] = o
 		}
 		for _, sg := range g.Groups() {
 			walkG(sg)
@@ -549,7 +549,7 @@ func (b *Built) fillState(obs *Obs) {
 	}
 	walkC(b.p.Command)
 	for _, o := range b.opts {
-		fo := byField[o.field]
+		fo := byField[nodeKey(o)]
 		obs.IsSet = append(obs.IsSet, fo != nil && fo.IsSet())
 		obs.IsSetDef = append(obs.IsSetDef, fo != nil && fo.IsSetDefault())
 	}
